@@ -1,6 +1,6 @@
 """C18 — a keyspace has one state, even when first used by many tasks at once."""
 ID = 'C18'
-RULE = ('one case = a fresh KeyspaceGroup<MemStore> and k in 2..8 tasks that concurrently call get_or_create_keyspace on a fresh name and then send one Set through the mailbox they received; '
+RULE = ('one case = a fresh KeyspaceGroup<MemStore> and k in 2..8 tasks that concurrently use a fresh keyspace name for the first time, each as one of the kinds of first user the property names - a client write (get_or_create_keyspace, then one Set through the mailbox received), incoming replication (the real ConsistencyService put handler), plus 0-2 peers asking for the state (the real ReplicationService GetState handler); '
         'on a current_thread runtime each task is delayed by a schedule-chosen number of yield_now before and between its steps (deterministic, replayable from the seed), on 2- and 8-worker runtimes '
         'the scheduler interleaves; afterwards a fresh get_or_create_keyspace + Serialize must contain every acknowledged id (and storage holds them all). quick: all delay bounds 0..3 x k x 40 seeds; '
         'thorough: 20 000 seeds. Plus start-up races on a real node: a replicated write arriving while the store extension is still loading the persisted keyspaces must be refused or end up in the state peers obtain. The model outcome is schedule-independent by theorem one_state; non-trivial = k >= 2 (every case); distinct by hash')
